@@ -140,7 +140,7 @@ Print Assumptions C04_nothing_lost_in_every_run.
 (* the general statement it is an instance of *)
 Theorem C04_every_market_invariant_holds_in_every_run : forall (I : market -> list record -> Prop),
   (forall m rs o m' recs, life_ok m -> gone_mkt m -> I m rs -> valid_op o -> step_rec m o = Ok (m', recs) -> I m' (rs ++ recs)) ->
-  (forall m rs f, length f = length (m_fund m) -> I m rs -> I (RecordSet.set m_fund (fun _ => f) m) rs) ->
+  (forall m rs v, I m rs -> I (RecordSet.set m_fund (fun _ => upd (m_fund m) (zi (m_time m)) (Some v)) m) rs) ->
   forall c tape batches funds,
   NoDup (map mc_id (c_markets c)) ->
   (forall mc, In mc (c_markets c) -> I (init_market (mc_id mc) (mc_tick mc) (mc_mp0 mc)) []) ->
